@@ -128,7 +128,8 @@ class C13System:
             ["transform.delete_state", ["a"]],
         ]
         if self.errors:
-            ops += [["transform.scale", [0.0]], ["transform.reflect", [[0.0, 0.0, 0.0]]]]
+            ops += [["transform.scale", [0.0]], ["transform.reflect", [[0.0, 0.0, 0.0]]],
+                    ["transform.scale", [2.0, 0.0]], ["transform.scale", [0.0, 1.0, 1.0]]]       # some, not all, factors zero
         else:
             ops = [o for o in ops if o != ["transform.save_state", ["b"]] and o != ["transform.restore_state", ["b"]]
                    and o != ["transform.delete_state", ["a"]]]
